@@ -124,6 +124,15 @@ NoNames(chunks) == \A j \in 1..Len(chunks) : ~chunks[j].a.hn
 Core(a) == <<a.m, a.f, a.l, a.c, a.hn, a.n>>
 Full(a) == <<a.m, a.f, a.hc, a.ct, a.l, a.c, a.hn, a.n>>
 
+(* the decoded segments of a map with their tables applied: two maps with   *)
+(* the same value here differ at most in the order of their tables and in   *)
+(* unused entries (usable for any text, ASCII or not)                       *)
+SegValsOfOptMap(optmap) ==
+  IF optmap = <<>> THEN <<>>
+  ELSE LET map == optmap[1]
+           segs == DecodeMappings(map.m)
+       IN [i \in 1..Len(segs) |-> <<segs[i].gl, segs[i].gc, Full(SegAttr(map, segs[i]))>>]
+
 SameCore(as, bs) ==
   Len(as) = Len(bs) /\ \A i \in 1..Len(as) : Core(as[i]) = Core(bs[i])
 SameFull(as, bs) ==
